@@ -1,11 +1,15 @@
 (* C20 — proofs.  Structure:
    1. paths, lookup / ins / del / rename
-   2. effect of one operation; run / reach (a killed or failing call stops after a prefix)
-   3. the copy phase yields the source (entries_spec, run_entries)
+   2. effect of one operation; run / reach (a killed or failing call stops after a prefix, possibly inside a write)
+   3. the copy phase yields the source (entries_spec, run_entries); the joblib tasks of a folder of zips and their
+      interleaving (unzip_jobs_concat, interleave_perm, copy_entries_perm, entries_order_irrelevant)
    4. phases of a call: create (temporary sibling + rename), wipe (keeps the start marker), common
-   5. the invariant auto_state over histories; the theorems
-   6. the code before the repairs: two refuting histories *)
-From Coq Require Import List String Ascii Bool Arith ZArith Lia.
+   5. the invariant auto_state over histories (crashed_pres: only a call that gets to the end marker needs an
+      honest directory listing); the theorems
+   6. the code before the repairs: two refuting histories
+   7.-9. complete_copyb is sound; non-vacuity; nothing outside dst is touched
+   10.-12. the end marker after a kill; two concurrent copiers (a refutation); a parallel and a torn-write witness *)
+From Coq Require Import List String Ascii Bool Arith ZArith Lia Permutation.
 Import ListNotations.
 From KD Require Import C20.Model C20.Spec.
 
@@ -245,7 +249,8 @@ Qed.
 (* s' is the state after some prefix of ops, every operation of the prefix having succeeded *)
 Inductive reach : list op -> fs -> fs -> Prop :=
 | reach_stop : forall ops s, reach ops s s
-| reach_step : forall o ops s s1 e s', apply o s = Some (s1, e) -> reach ops s1 s' -> reach (o :: ops) s s'.
+| reach_step : forall o ops s s1 e s', apply o s = Some (s1, e) -> reach ops s1 s' -> reach (o :: ops) s s'
+| reach_tear : forall o o' n ops s s1 e, tear n o = Some o' -> apply o' s = Some (s1, e) -> reach (o :: ops) s s1.
 
 Lemma run_upto_reach : forall ops s, reach ops s (fst (run_upto ops s)).
 Proof.
@@ -261,11 +266,35 @@ Proof.
   - simpl in H. inv H. constructor.
   - destruct ops as [|o ops]; simpl in H.
     + inv H. constructor.
-    + inv H; [constructor|]. econstructor; eauto.
+    + inv H; [constructor| |]; [econstructor; eauto|eapply reach_tear; eauto].
 Qed.
 
 Lemma crash_reach : forall ops k s, reach ops s (crash_state ops k s).
 Proof. intros. unfold crash_state. eapply reach_firstn. apply run_upto_reach. Qed.
+
+Lemma crash_t_reach : forall ops k t s, reach ops s (crash_state_t ops k t s).
+Proof.
+  induction ops as [|o ops IH]; intros k t s; [destruct k; constructor|].
+  destruct k as [|k]; simpl.
+  - destruct t as [n|]; [|constructor]. destruct (tear n o) as [o'|] eqn:Et; [|constructor].
+    destruct (apply o' s) as [[s1 e1]|] eqn:Ea; [|constructor]. eapply reach_tear; eauto.
+  - destruct (apply o s) as [[s1 e1]|] eqn:Ea; [|constructor]. econstructor; eauto.
+Qed.
+
+(* killed (possibly inside a write) before the k-th operation has completed, k <= |a|, and the operation after a is
+   not a write: only a has been worked on *)
+Lemma crash_t_app_le : forall a b k t s, k <= List.length a ->
+    (forall o n, hd_error b = Some o -> tear n o = None) ->
+    reach a s (crash_state_t (a ++ b) k t s).
+Proof.
+  induction a as [|o a IH]; intros b k t s Hk Hb.
+  - assert (k = 0) by (simpl in Hk; lia). subst k. simpl. destruct b as [|o b]; [constructor|]. simpl.
+    destruct t as [n|]; [|constructor]. rewrite (Hb o n eq_refl). constructor.
+  - destruct k as [|k]; simpl.
+    + destruct t as [n|]; [|constructor]. destruct (tear n o) as [o'|] eqn:Et; [|constructor].
+      destruct (apply o' s) as [[s1 e1]|] eqn:Ea; [|constructor]. eapply reach_tear; eauto.
+    + destruct (apply o s) as [[s1 e1]|] eqn:Ea; [|constructor]. econstructor; eauto. apply IH; auto. simpl in Hk. lia.
+Qed.
 
 Lemma run_reach : forall ops s s' e, run ops s = Some (s', e) -> reach ops s s'.
 Proof.
@@ -279,27 +308,38 @@ Lemma reach_app : forall a b s s', reach (a ++ b) s s' ->
 Proof.
   induction a as [|o a IH]; intros b s s' H; simpl in *.
   - right. exists s, []. auto.
-  - inversion H as [|o' ops' s0 s1 e s2 Ha Hr]; subst.
+  - inversion H as [|o' ops' s0 s1 e s2 Ha Hr|o' o'' n ops' s0 s1 e Ht Ha]; subst.
     + left. constructor.
     + apply IH in Hr. destruct Hr as [Hr|(s2 & e2 & Hr & Hb)].
       * left. econstructor; eauto.
       * right. exists s2, (e ++ e2). rewrite Ha, Hr. auto.
+    + left. eapply reach_tear; eauto.
 Qed.
 
-Lemma reach_pres : forall (P : fs -> Prop) ops,
-    (forall o s s1 e, In o ops -> P s -> apply o s = Some (s1, e) -> P s1) ->
+(* a predicate on operations that does not look at the data of a write *)
+Definition tear_closed (safe : op -> Prop) : Prop := forall o o' n, safe o -> tear n o = Some o' -> safe o'.
+
+Lemma reach_pres : forall (safe : op -> Prop) (P : fs -> Prop) ops, tear_closed safe ->
+    (forall o s s1 e, safe o -> P s -> apply o s = Some (s1, e) -> P s1) ->
+    (forall o, In o ops -> safe o) ->
     forall s s', P s -> reach ops s s' -> P s'.
 Proof.
-  intros P ops Hp s s' Hs H. induction H; auto.
-  apply IHreach.
-  - intros. eapply Hp; eauto. right; auto.
-  - eapply Hp; eauto. left; auto.
+  intros safe P ops Ht Hp Hs s s' H0 H. induction H; auto.
+  - apply IHreach.
+    + intros o' Hi. apply Hs. right; auto.
+    + eapply Hp; eauto. apply Hs. left; auto.
+  - eapply Hp; [|exact H0|eauto]. eapply Ht; eauto. apply Hs. left; auto.
 Qed.
 
 Lemma run_pres : forall (P : fs -> Prop) ops,
     (forall o s s1 e, In o ops -> P s -> apply o s = Some (s1, e) -> P s1) ->
     forall s s' e, P s -> run ops s = Some (s', e) -> P s'.
-Proof. intros. eapply reach_pres; eauto. eapply run_reach; eauto. Qed.
+Proof.
+  intros P. induction ops as [|o ops IH]; intros Hp s s' e H0 H.
+  - simpl in H. inv H. auto.
+  - apply run_cons_inv in H. destruct H as (s1 & e1 & e2 & Ha & Hr & _).
+    eapply IH; [|eapply Hp; eauto; left; auto|eauto]. intros; eapply Hp; eauto. right; auto.
+Qed.
 
 (* ====================================================================== *)
 (* 3. the copy phase                                                       *)
@@ -531,6 +571,127 @@ Proof.
   destruct H1 as [(E1 & E1' & _)|[Hr H1]], H2 as [(E2 & E2' & _)|[Hr2 H2]]; congruence.
 Qed.
 
+
+(* ---- a folder of zips: the jobs and their interleaving ---- *)
+Lemma unzip_jobs_concat : forall (A : Type) (w : nat) (zs : list A), List.concat (unzip_jobs w zs) = zs.
+Proof.
+  intros A w zs. unfold unzip_jobs. destruct (w <=? 1).
+  - simpl. apply app_nil_r.
+  - induction zs as [|z zs IH]; simpl; [reflexivity|]. rewrite IH. reflexivity.
+Qed.
+
+Lemma take_job_perm : forall (A : Type) j (jobs : list (list A)) m jobs',
+    take_job j jobs = Some (m, jobs') -> Permutation (m :: List.concat jobs') (List.concat jobs).
+Proof.
+  intros A j jobs. revert j. induction jobs as [|q rest IH]; intros j m jobs' H; [destruct j; discriminate|].
+  destruct j as [|j]; simpl in H.
+  - destruct q as [|m0 q']; [discriminate|]. inv H. simpl. apply Permutation_refl.
+  - destruct (take_job j rest) as [[m0 rest']|] eqn:E; [|discriminate]. inv H. simpl.
+    apply IH in E. eapply Permutation_trans; [apply Permutation_middle|]. apply Permutation_app_head. exact E.
+Qed.
+
+Lemma take_job_length : forall (A : Type) j (jobs : list (list A)) m jobs',
+    take_job j jobs = Some (m, jobs') -> List.length jobs' = List.length jobs.
+Proof.
+  intros A j jobs. revert j. induction jobs as [|q rest IH]; intros j m jobs' H; [destruct j; discriminate|].
+  destruct j as [|j]; simpl in H.
+  - destruct q as [|m0 q']; [discriminate|]. inv H. reflexivity.
+  - destruct (take_job j rest) as [[m0 rest']|] eqn:E; [|discriminate]. inv H. simpl. f_equal. eauto.
+Qed.
+
+(* whatever the oracle does, every member of every job is extracted exactly once *)
+Lemma interleave_perm : forall (A : Type) sched (jobs : list (list A)),
+    Permutation (interleave sched jobs) (List.concat jobs).
+Proof.
+  intros A sched. induction sched as [|j sched IH]; intros jobs; simpl.
+  - apply Permutation_refl.
+  - destruct (take_job j jobs) as [[m jobs']|] eqn:E; [|apply IH].
+    eapply Permutation_trans; [apply perm_skip; apply IH|]. eapply take_job_perm; eauto.
+Qed.
+
+(* a single job is run in its own order, whatever the oracle says (num_workers <= 1) *)
+Lemma interleave_single : forall (A : Type) sched (q : list A), interleave sched [q] = q.
+Proof.
+  intros A sched. induction sched as [|j sched IH]; intros q; simpl.
+  - apply app_nil_r.
+  - destruct j as [|j]; simpl.
+    + destruct q as [|m q']; [apply IH|]. rewrite IH. reflexivity.
+    + destruct j; simpl; apply IH.
+Qed.
+
+Lemma concat_map_flat_map : forall (A B : Type) (f : A -> list B) (ls : list (list A)),
+    List.concat (map (flat_map f) ls) = flat_map f (List.concat ls).
+Proof.
+  intros A B f ls. induction ls as [|l ls IH]; simpl; [reflexivity|]. rewrite flat_map_app, IH. reflexivity.
+Qed.
+
+Lemma all_members_zip_items : forall c items, all_members c items = flat_map (zip_members c) (zip_items items).
+Proof.
+  intros c items. unfold all_members, zip_items. induction items as [|[n t] items IH]; simpl; [reflexivity|].
+  destruct (is_zip_name n); simpl; rewrite IH; reflexivity.
+Qed.
+
+Lemma jobs_members : forall c w zs,
+    List.concat (map (job_members c) (unzip_jobs w zs)) = flat_map (zip_members c) zs.
+Proof.
+  intros c w zs. unfold job_members. rewrite concat_map_flat_map, unzip_jobs_concat. reflexivity.
+Qed.
+
+Lemma scheduled_members_perm : forall c sched items,
+    Permutation (scheduled_members c sched items) (all_members c items).
+Proof.
+  intros c sched items. unfold scheduled_members. rewrite all_members_zip_items, <- (jobs_members c (c_workers c)).
+  apply interleave_perm.
+Qed.
+
+(* with at most one worker the schedule is irrelevant: the canonical order *)
+Lemma scheduled_members_sequential : forall c sched items, c_workers c <= 1 ->
+    scheduled_members c sched items = all_members c items.
+Proof.
+  intros c sched items H. unfold scheduled_members, unzip_jobs.
+  apply Nat.leb_le in H. rewrite H. simpl. rewrite interleave_single.
+  unfold job_members. symmetry. apply all_members_zip_items.
+Qed.
+
+Lemma copy_entries_perm : forall c sched, Permutation (copy_entries c sched) (src_entries c).
+Proof.
+  intros c sched. unfold copy_entries, src_entries. destruct (c_dir c) as [items|]; [|apply Permutation_refl].
+  destruct (mostly_zips items); [|apply Permutation_refl].
+  apply perm_skip. apply Permutation_flat_map. apply scheduled_members_perm.
+Qed.
+
+Lemma copy_entries_in : forall c sched x, In x (copy_entries c sched) <-> In x (src_entries c).
+Proof.
+  intros c sched x. split; apply Permutation_in; [|apply Permutation_sym]; apply copy_entries_perm.
+Qed.
+
+Lemma copy_entries_consistent : forall c sched, src_ok c = true -> consistent (copy_entries c sched).
+Proof.
+  intros c sched Hok r e1 e2 H1 H2. apply copy_entries_in in H1. apply copy_entries_in in H2.
+  eapply entries_consistent; eauto.
+Qed.
+
+(* the order in which consistent entries are written does not matter for the result *)
+Lemma entries_order_irrelevant : forall base es es' s s1 ev1 s2 ev2, consistent es -> Permutation es es' ->
+    run (flat_map (ops_of_entry base) es) s = Some (s1, ev1) ->
+    run (flat_map (ops_of_entry base) es') s = Some (s2, ev2) ->
+    forall x, lookup s1 x = lookup s2 x.
+Proof.
+  intros base es es' s s1 ev1 s2 ev2 Hc Hp H1 H2 x.
+  assert (Hc' : consistent es').
+  { intros r e1 e2 Ha Hb. apply (Permutation_in _ (Permutation_sym Hp)) in Ha.
+    apply (Permutation_in _ (Permutation_sym Hp)) in Hb. eauto. }
+  apply run_entries in H1; auto. apply run_entries in H2; auto.
+  destruct H1 as [A1 B1], H2 as [A2 B2].
+  destruct (in_dec path_eq_dec x (map (fun re => base ++ fst re) es)) as [Hi|Hn].
+  - apply in_map_iff in Hi. destruct Hi as ([r e] & <- & Hi). simpl.
+    rewrite (A1 _ _ Hi). symmetry. apply A2. eapply Permutation_in; eauto.
+  - rewrite B1, B2; auto.
+    + intros r e Hi E. apply Hn. apply in_map_iff. exists (r, e). split; auto.
+      eapply Permutation_in; [apply Permutation_sym|]; eauto.
+    + intros r e Hi E. apply Hn. apply in_map_iff. exists (r, e). split; auto.
+Qed.
+
 (* ====================================================================== *)
 (* 4. the phases of one call                                               *)
 (* ====================================================================== *)
@@ -643,6 +804,12 @@ Proof.
   repeat split; auto.
 Qed.
 
+Lemma tear_inv : forall n o o', tear n o = Some o' -> exists p c, o = Write p c /\ o' = Write p (firstn n c).
+Proof. intros n o o' H. destruct o; simpl in H; try discriminate. inv H. eauto. Qed.
+
+Lemma mid_safe_tear : forall c, tear_closed (mid_safe c).
+Proof. intros c o o' n Hs Ht. apply tear_inv in Ht. destruct Ht as (p & k & -> & ->). exact Hs. Qed.
+
 (* ---- wipe (repaired): every entry except the start marker ---- *)
 Lemma wipe_safe : forall c order, order_in_dst c order -> forall o, In o (wipe_ops true c order) -> mid_safe c o.
 Proof.
@@ -692,6 +859,9 @@ Proof.
   - intros r Hl. destruct (path_eq_dec (tmp c ++ r) (target o)) as [E|N]; auto.
     apply H2. rewrite <- Hf; auto.
 Qed.
+
+Lemma pre_safe_tear : forall c, tear_closed (pre_safe c).
+Proof. intros c o o' n Hs Ht. apply tear_inv in Ht. destruct Ht as (p & k & -> & ->). exact Hs. Qed.
 
 Definition tmark (c : config) : path := tmp c ++ [sname].
 
@@ -757,32 +927,36 @@ Proof.
   eapply rename_clean; eauto.
 Qed.
 
-Lemma reach_one : forall o s s', reach [o] s s' -> s' = s \/ exists e, apply o s = Some (s', e).
+Lemma reach_one : forall o s s', (forall n, tear n o = None) -> reach [o] s s' ->
+    s' = s \/ exists e, apply o s = Some (s', e).
 Proof.
-  intros o s s' H. inversion H as [|o' ops' s0 s1 e s2 Ha Hr]; subst; auto.
-  inversion Hr; subst. eauto.
+  intros o s s' Hn H. inversion H as [|o' ops' s0 s1 e s2 Ha Hr|o' o'' n ops' s0 s1 e Ht Ha]; subst; auto.
+  - inversion Hr; subst. eauto.
+  - rewrite Hn in Ht. discriminate.
 Qed.
 
 Lemma create_reach : forall c s s', pre0 c s -> reach (create_ops true c) s s' -> pre0 c s' \/ clean c s'.
 Proof.
   intros c s s' Hp H. rewrite create_split in H. apply reach_app in H. destruct H as [H|(s1 & e1 & H1 & H2)].
-  - left. eapply reach_pres; [| exact Hp | exact H]. intros o sa sb eb Hi Hpa Ha.
-    eapply pre_safe_pres; eauto. apply create_pre_safe; auto.
+  - left. eapply (reach_pres (pre_safe c)); [apply pre_safe_tear| | |exact Hp|exact H].
+    + intros o sa sb eb Hi Hpa Ha. eapply pre_safe_pres; eauto.
+    + intros o Hi. apply create_pre_safe; auto.
   - assert (Hp1 : pre0 c s1).
     { eapply run_pres; [| exact Hp | exact H1]. intros o sa sb eb Hi Hpa Ha.
       eapply pre_safe_pres; eauto. apply create_pre_safe; auto. }
-    apply reach_one in H2. destruct H2 as [->|(e & Hr)]; auto.
+    apply reach_one in H2; [|reflexivity]. destruct H2 as [->|(e & Hr)]; auto.
     right. apply run_app_inv in H1. destruct H1 as (s0 & e3 & e4 & _ & Hw & _).
     apply run_cons_inv in Hw. destruct Hw as (s1' & e5 & e6 & Hw & Hn & _). simpl in Hn. inv Hn.
     apply apply_write in Hw. eapply rename_clean; eauto.
 Qed.
 
 (* ---- start marker, copy, end marker ---- *)
-Definition pre2 (c : config) : list op := [Create (smark c); Write (smark c) start_text] ++ copy_ops c.
+Definition pre2 (c : config) (sched : list nat) : list op :=
+  [Create (smark c); Write (smark c) start_text] ++ copy_ops c sched.
 Definition last2 (c : config) : list op := [Create (emark c); Write (emark c) end_text].
 
-Lemma common_split : forall c, common_ops c = pre2 c ++ last2 c.
-Proof. intros c. unfold common_ops, pre2, last2. rewrite app_assoc. reflexivity. Qed.
+Lemma common_split : forall c sched, common_ops c sched = pre2 c sched ++ last2 c.
+Proof. intros c sched. unfold common_ops, pre2, last2. rewrite app_assoc. reflexivity. Qed.
 
 Lemma src_ok_markers : forall c, src_ok c = true -> src_lookup c [sname] = None /\ src_lookup c [ename] = None.
 Proof.
@@ -808,12 +982,13 @@ Proof.
   - destruct H as [<-|[<-|[]]]; eauto.
 Qed.
 
-Lemma pre2_safe : forall c, src_ok c = true -> forall o, In o (pre2 c) -> mid_safe c o.
+Lemma pre2_safe : forall c sched, src_ok c = true -> forall o, In o (pre2 c sched) -> mid_safe c o.
 Proof.
-  intros c Hok o H. unfold pre2 in H. apply in_app_iff in H. destruct H as [H|H].
+  intros c sched Hok o H. unfold pre2 in H. apply in_app_iff in H. destruct H as [H|H].
   - assert (Hu : under (dst c) (smark c) = true) by apply under_app.
     pose proof (smark_neq_emark c). simpl in H. destruct H as [<-|[<-|[]]]; simpl; auto.
   - unfold copy_ops in H. apply in_flat_map in H. destruct H as ([r e] & Hi & H).
+    apply copy_entries_in in Hi.
     destruct (entries_not_marker _ _ _ Hok Hi) as [_ Hne].
     assert (Hn : dst c ++ r <> emark c).
     { unfold emark. intros E. apply app_inv_head in E. auto. }
@@ -821,27 +996,28 @@ Proof.
     apply ops_of_entry_target in H. destruct H as [->|[->|(k & ->)]]; simpl; auto.
 Qed.
 
-Lemma pre2_run : forall c s s2 e, src_ok c = true -> clean c s -> run (pre2 c) s = Some (s2, e) -> copied c s2.
+Lemma pre2_run : forall c sched s s2 e, src_ok c = true -> clean c s -> run (pre2 c sched) s = Some (s2, e) -> copied c s2.
 Proof.
-  intros c s s2 e Hok [Hk Hcl] H.
+  intros c sched s s2 e Hok [Hk Hcl] H.
   assert (Hk2 : midK c s2).
   { eapply run_pres; [| exact Hk | exact H]. intros o sa sb eb Hi Hka Ha.
-    eapply mid_safe_pres; eauto. apply pre2_safe; auto. }
+    eapply mid_safe_pres; eauto. eapply pre2_safe; eauto. }
   unfold pre2 in H. apply run_app_inv in H. destruct H as (s1 & e1 & e2 & H1 & H2 & _).
   apply run_cons_inv in H1. destruct H1 as (sa & ea & eb & Ha & H1 & _).
   apply run_cons_inv in H1. destruct H1 as (sb & ec & ed & Hb & H1 & _). simpl in H1. inv H1.
   assert (Hs1 : lookup s1 (smark c) = Some (File start_text)) by (eapply apply_write; eauto).
   assert (Hf1 : forall x, x <> smark c -> lookup s1 x = lookup s x).
   { intros x Hx. rewrite (apply_frame _ _ _ _ Hb eq_refl); auto. apply (apply_frame _ _ _ _ Ha eq_refl); auto. }
-  unfold copy_ops in H2. apply run_entries in H2; [|apply entries_consistent; auto].
+  unfold copy_ops in H2. apply run_entries in H2; [|apply copy_entries_consistent; auto].
   destruct H2 as [Hin Hout]. split; auto. split.
   - rewrite Hout; auto. intros r e' Hi E. unfold smark in E. apply app_inv_head in E. subst r.
-    apply entries_not_marker in Hi; auto. tauto.
+    apply copy_entries_in in Hi. apply entries_not_marker in Hi; auto. tauto.
   - intros r Hr1 Hr2 Hr3. destruct (src_lookup c r) as [e'|] eqn:El.
-    + apply Hin. apply entries_spec; auto.
+    + apply Hin. apply copy_entries_in. apply entries_spec; auto.
     + rewrite Hout.
       * rewrite Hf1; auto. unfold smark. intros E. apply app_inv_head in E. auto.
-      * intros r' e' Hi E. apply app_inv_head in E. subst r'. apply entries_spec in Hi; auto.
+      * intros r' e' Hi E. apply app_inv_head in E. subst r'. apply copy_entries_in in Hi.
+        apply entries_spec in Hi; auto.
         destruct Hi as [(-> & _)|[_ Hl]]; congruence.
 Qed.
 
@@ -878,11 +1054,11 @@ Proof. intros c s [H _]. exact H. Qed.
 Lemma last2_reach : forall c s2 s', copied c s2 -> reach (last2 c) s2 s' -> auto_state c s'.
 Proof.
   intros c s2 s' Hc H. unfold last2 in H.
-  inversion H as [|o1 ops1 s0 sa ea s0' Ha Hr]; subst.
+  inversion H as [|o1 ops1 s0 sa ea s0' Ha Hr|o1 o1' n1 ops1 s0 sa ea Ht Ha]; subst.
   - apply midK_auto. apply copied_midK; auto.
   - assert (Hfa : forall x, x <> emark c -> lookup sa x = lookup s2 x).
     { intros x Hx. apply (apply_frame _ _ _ _ Ha eq_refl); auto. }
-    inversion Hr as [|o2 ops2 s1 sb eb s1' Hb Hr2]; subst.
+    inversion Hr as [|o2 ops2 s1 sb eb s1' Hb Hr2|o2 o2' n2 ops2 s1 sb eb Ht Hb]; subst.
     + destruct (end_states c s2 s' Hc Hfa) as (H1 & H2 & _).
       * apply apply_create in Ha. eauto.
       * apply complete_auto; auto.
@@ -891,24 +1067,33 @@ Proof.
       * intros x Hx. rewrite (apply_frame _ _ _ _ Hb eq_refl); auto.
       * apply apply_write in Hb. eauto.
       * apply complete_auto; auto.
+    + (* killed inside the write of the end marker: it exists with a prefix of its text *)
+      simpl in Ht. inv Ht.
+      destruct (end_states c s2 s' Hc) as (H1 & H2 & _).
+      * intros x Hx. rewrite (apply_frame _ _ _ _ Hb eq_refl); auto.
+      * apply apply_write in Hb. eauto.
+      * apply complete_auto; auto.
+  - simpl in Ht. discriminate.
 Qed.
 
-Lemma common_reach : forall c s s', src_ok c = true -> clean c s -> reach (common_ops c) s s' -> auto_state c s'.
+Lemma common_reach : forall c sched s s', src_ok c = true -> clean c s -> reach (common_ops c sched) s s' -> auto_state c s'.
 Proof.
-  intros c s s' Hok Hcl H. rewrite common_split in H. apply reach_app in H.
+  intros c sched s s' Hok Hcl H. rewrite common_split in H. apply reach_app in H.
   destruct H as [H|(s2 & e2 & H2 & H)].
-  - apply midK_auto. destruct Hcl as [Hk _]. eapply reach_pres; [| exact Hk | exact H].
-    intros o sa sb eb Hi Hka Ha. eapply mid_safe_pres; eauto. apply pre2_safe; auto.
+  - apply midK_auto. destruct Hcl as [Hk _].
+    eapply (reach_pres (mid_safe c)); [apply mid_safe_tear| | |exact Hk|exact H].
+    + intros o sa sb eb Hi Hka Ha. eapply mid_safe_pres; eauto.
+    + intros o Hi. eapply pre2_safe; eauto.
   - eapply last2_reach; eauto. eapply pre2_run; eauto.
 Qed.
 
-Lemma common_run : forall c s s' e, src_ok c = true -> clean c s -> run (common_ops c) s = Some (s', e) ->
+Lemma common_run : forall c sched s s' e, src_ok c = true -> clean c s -> run (common_ops c sched) s = Some (s', e) ->
     complete_copy c s' /\ tmp_small c s' /\ lookup s' (smark c) = Some (File start_text)
     /\ lookup s' (emark c) = Some (File end_text) /\ e <> [].
 Proof.
-  intros c s s' e Hok Hcl H. rewrite common_split in H.
+  intros c sched s s' e Hok Hcl H. rewrite common_split in H.
   apply run_app_inv in H. destruct H as (s2 & e1 & e2 & H1 & H2 & ->).
-  pose proof (pre2_run _ _ _ _ Hok Hcl H1) as Hc.
+  pose proof (pre2_run _ _ _ _ _ Hok Hcl H1) as Hc.
   destruct (last2_run _ _ _ _ Hc H2) as (A & B & C & D).
   split; [auto|split; [auto|split; [auto|split; [auto|]]]].
   unfold pre2 in H1. simpl app in H1. apply run_cons_inv in H1. destruct H1 as (sa & ea & eb & Ha & _ & ->).
@@ -923,15 +1108,15 @@ Definition res_create (c : config) : result :=
 Definition res_wipe (c : config) : result :=
   {| was_copied := true; was_deleted := true; source_format := Some (format_of c) |}.
 
-Lemma plan_cases : forall c order s, auto_state c s ->
-    (src_exists c = false /\ plan c order s = ORaise) \/
+Lemma plan_cases : forall c order sched s, auto_state c s ->
+    (src_exists c = false /\ plan c order sched s = ORaise) \/
     (src_exists c = true /\ lookup s (dst c) = None /\ pre0 c s /\
-     plan c order s = ORun (create_ops true c ++ common_ops c) (res_create c)) \/
+     plan c order sched s = ORun (create_ops true c ++ common_ops c sched) (res_create c)) \/
     (src_exists c = true /\ midK c s /\
-     plan c order s = ORun (wipe_ops true c order ++ common_ops c) (res_wipe c)) \/
-    (src_exists c = true /\ complete_copy c s /\ lookup s (emark c) <> None /\ plan c order s = OSkip nothing_done).
+     plan c order sched s = ORun (wipe_ops true c order ++ common_ops c sched) (res_wipe c)) \/
+    (src_exists c = true /\ complete_copy c s /\ lookup s (emark c) <> None /\ plan c order sched s = OSkip nothing_done).
 Proof.
-  intros c order s [Ht Ha]. unfold plan, plan_gen. destruct (src_exists c); simpl; auto.
+  intros c order sched s [Ht Ha]. unfold plan, plan_gen. destruct (src_exists c); simpl; auto.
   right. destruct (lookup s (dst c)) as [e|] eqn:Ed.
   - destruct Ha as (-> & (a & Hm) & He). rewrite Hm. destruct (lookup s (emark c)) as [b|] eqn:Ee.
     + right. right. split; [reflexivity|]. split; [apply He; congruence|]. split; [congruence|reflexivity].
@@ -939,21 +1124,47 @@ Proof.
   - left. split; [reflexivity|]. split; [reflexivity|]. split; [|reflexivity]. split; auto.
 Qed.
 
+Lemma firstn_app_le : forall (A : Type) k (a b : list A), k <= List.length a -> firstn k (a ++ b) = firstn k a.
+Proof.
+  intros A k a b H. rewrite firstn_app. replace (k - List.length a) with 0 by lia. simpl. apply app_nil_r.
+Qed.
+
+(* a call that finds an interrupted copy and is killed before it creates the end marker: whatever its directory
+   scan returned (below dst), dst still has its start marker and no end marker *)
+Lemma wipe_killed_early : forall c order sched s k t, src_ok c = true -> midK c s -> order_in_dst c order ->
+    k <= List.length (wipe_ops true c order ++ common_ops c sched) - 2 ->
+    midK c (crash_state_t (wipe_ops true c order ++ common_ops c sched) k t s).
+Proof.
+  intros c order sched s k t Hok Hk Ho Hle.
+  rewrite common_split, app_assoc in *. rewrite app_length in Hle.
+  change (List.length (last2 c)) with 2 in Hle.
+  eapply (reach_pres (mid_safe c)); [apply mid_safe_tear| | |exact Hk|apply crash_t_app_le].
+  - intros o sa sb eb Hi Hka Hap. eapply mid_safe_pres; eauto.
+  - intros o Hi. apply in_app_iff in Hi. destruct Hi as [Hi|Hi]; [eapply wipe_safe; eauto|eapply pre2_safe; eauto].
+  - lia.
+  - intros o n Hh. unfold last2 in Hh. simpl in Hh. inv Hh. reflexivity.
+Qed.
+
 Lemma crashed_pres : forall c s a, src_ok c = true -> auto_state c s ->
-    order_in_dst c (a_order a) -> order_covers c s (a_order a) ->
+    order_in_dst c (a_order a) -> (seals c s a -> order_covers c s (a_order a)) ->
     auto_state c (invoke_crashed true true c s a).
 Proof.
-  intros c s a Hok Ha Ho Hc. unfold invoke_crashed. fold (plan c (a_order a) s).
-  destruct (plan_cases c (a_order a) s Ha) as [(_ & ->)|[(_ & Hd & Hp & ->)|[(_ & Hk & ->)|(_ & _ & _ & ->)]]]; auto.
-  - pose proof (crash_reach (create_ops true c ++ common_ops c) (a_kill a) s) as H.
+  intros c s a Hok Ha Ho Hc. unfold invoke_crashed, seals in *. fold (plan c (a_order a) (a_sched a) s).
+  destruct (plan_cases c (a_order a) (a_sched a) s Ha) as [(_ & E)|[(_ & Hd & Hp & E)|[(_ & Hk & E)|(_ & _ & _ & E)]]];
+    rewrite E in *; auto.
+  - pose proof (crash_t_reach (create_ops true c ++ common_ops c (a_sched a)) (a_kill a) (a_torn a) s) as H.
     apply reach_app in H. destruct H as [H|(s1 & e1 & H1 & H)].
     + apply create_reach in H; auto. destruct H as [H|[H _]]; [apply pre0_auto|apply midK_auto]; auto.
     + eapply common_reach; eauto. eapply create_run_clean; eauto.
-  - pose proof (crash_reach (wipe_ops true c (a_order a) ++ common_ops c) (a_kill a) s) as H.
-    apply reach_app in H. destruct H as [H|(s1 & e1 & H1 & H)].
-    + apply midK_auto. eapply reach_pres; [| exact Hk | exact H]. intros o sa sb eb Hi Hka Hap.
-      eapply mid_safe_pres; eauto. eapply wipe_safe; eauto.
-    + eapply common_reach; eauto. eapply wipe_run_clean; eauto.
+  - destruct (le_lt_dec (a_kill a) (List.length (wipe_ops true c (a_order a) ++ common_ops c (a_sched a)) - 2)) as [Hle|Hlt].
+    + apply midK_auto. apply wipe_killed_early; auto.
+    + specialize (Hc Hlt).
+      pose proof (crash_t_reach (wipe_ops true c (a_order a) ++ common_ops c (a_sched a)) (a_kill a) (a_torn a) s) as H.
+      apply reach_app in H. destruct H as [H|(s1 & e1 & H1 & H)].
+      * apply midK_auto. eapply (reach_pres (mid_safe c)); [apply mid_safe_tear| | |exact Hk|exact H].
+        -- intros o sa sb eb Hi Hka Hap. eapply mid_safe_pres; eauto.
+        -- intros o Hi. eapply wipe_safe; eauto.
+      * eapply common_reach; eauto. eapply wipe_run_clean; eauto.
 Qed.
 
 Lemma auto_state_history : forall c h s, src_ok c = true -> auto_state c s -> attempts_ok c h s ->
@@ -963,25 +1174,32 @@ Proof.
   destruct Hh as (H1 & H2 & H3). apply IH; auto. apply crashed_pres; auto.
 Qed.
 
+(* "every call sees an honest listing" is a special case of what is assumed *)
+Lemma honest_attempts_ok : forall c h s, attempts_honest c h s -> attempts_ok c h s.
+Proof.
+  intros c h. induction h as [|a h IH]; intros s H; simpl in *; auto.
+  destruct H as (H1 & H2 & H3). auto.
+Qed.
+
 Lemma fresh_auto : forall c s, fresh c s -> auto_state c s.
 Proof.
   intros c s [H1 H2]. apply pre0_auto. split; auto. intros r Hl. rewrite H2 in Hl. congruence.
 Qed.
 
 (* what a call that returns has done *)
-Lemma invoke_spec : forall c order s s' r evs, src_ok c = true -> auto_state c s ->
+Lemma invoke_spec : forall c order sched s s' r evs, src_ok c = true -> auto_state c s ->
     order_in_dst c order -> order_covers c s order ->
-    invoke true true c order s = Some (s', r, evs) ->
+    invoke true true c order sched s = Some (s', r, evs) ->
     (complete_copy c s' /\ tmp_small c s' /\
      lookup s' (smark c) = Some (File start_text) /\ lookup s' (emark c) = Some (File end_text) /\
      evs <> [] /\ lookup s (emark c) = None /\
      ((lookup s (dst c) = None /\ r = res_create c) \/ (lookup s (dst c) = Some Dir /\ r = res_wipe c)))
     \/ (complete_copy c s /\ lookup s (emark c) <> None /\ s' = s /\ r = nothing_done /\ evs = []).
 Proof.
-  intros c order s s' r evs Hok Ha Ho Hc H. unfold invoke in H. fold (plan c order s) in H.
-  destruct (plan_cases c order s Ha) as [(_ & E)|[(_ & Hd & Hp & E)|[(_ & Hk & E)|(_ & Hcc & Hee & E)]]];
+  intros c order sched s s' r evs Hok Ha Ho Hc H. unfold invoke in H. fold (plan c order sched s) in H.
+  destruct (plan_cases c order sched s Ha) as [(_ & E)|[(_ & Hd & Hp & E)|[(_ & Hk & E)|(_ & Hcc & Hee & E)]]];
     rewrite E in H; try discriminate.
-  - left. destruct (run (create_ops true c ++ common_ops c) s) as [[s2 e2]|] eqn:Er; [|discriminate]. inv H.
+  - left. destruct (run (create_ops true c ++ common_ops c sched) s) as [[s2 e2]|] eqn:Er; [|discriminate]. inv H.
     apply run_app_inv in Er. destruct Er as (s1 & e1 & e3 & H1 & H2 & ->).
     apply create_run_clean in H1; auto. apply common_run in H2; auto.
     destruct H2 as (A & B & C & D & F).
@@ -989,7 +1207,7 @@ Proof.
     split; [intros X; apply app_eq_nil in X; tauto|].
     split; [destruct Hp as [Hp _]; unfold emark; apply Hp|].
     left. split; auto.
-  - left. destruct (run (wipe_ops true c order ++ common_ops c) s) as [[s2 e2]|] eqn:Er; [|discriminate]. inv H.
+  - left. destruct (run (wipe_ops true c order ++ common_ops c sched) s) as [[s2 e2]|] eqn:Er; [|discriminate]. inv H.
     apply run_app_inv in Er. destruct Er as (s1 & e1 & e3 & H1 & H2 & ->).
     eapply wipe_run_clean in H1; eauto. apply common_run in H2; auto.
     destruct H2 as (A & B & C & D & F). destruct Hk as (K1 & K2 & K3 & K4).
@@ -1000,17 +1218,17 @@ Proof.
 Qed.
 
 (* ---- manual folders ---- *)
-Lemma manual_plan : forall fa fw c order s, manual c s ->
-    plan_gen fa fw c order s = ORaise \/ plan_gen fa fw c order s = OSkip nothing_done.
+Lemma manual_plan : forall fa fw c order sched s, manual c s ->
+    plan_gen fa fw c order sched s = ORaise \/ plan_gen fa fw c order sched s = OSkip nothing_done.
 Proof.
-  intros fa fw c order s [H1 H2]. unfold plan_gen. destruct (src_exists c); simpl; auto.
+  intros fa fw c order sched s [H1 H2]. unfold plan_gen. destruct (src_exists c); simpl; auto.
   destruct (lookup s (dst c)); [|congruence]. rewrite H2. auto.
 Qed.
 
 Lemma manual_crashed : forall fa fw c s a, manual c s -> invoke_crashed fa fw c s a = s.
 Proof.
   intros fa fw c s a H. unfold invoke_crashed.
-  destruct (manual_plan fa fw c (a_order a) s H) as [-> | ->]; auto.
+  destruct (manual_plan fa fw c (a_order a) (a_sched a) s H) as [-> | ->]; auto.
 Qed.
 
 Lemma manual_crashes : forall fa fw c h s, manual c s -> after_crashes fa fw c h s = s.
@@ -1019,31 +1237,31 @@ Proof.
   rewrite manual_crashed; auto.
 Qed.
 
-Lemma manual_untouched : forall c h order s0 s' r evs, manual c s0 ->
-    history_run true true c h order s0 = Some (s', r, evs) -> s' = s0 /\ r = nothing_done /\ evs = [].
+Lemma manual_untouched : forall c h order sched s0 s' r evs, manual c s0 ->
+    history_run true true c h order sched s0 = Some (s', r, evs) -> s' = s0 /\ r = nothing_done /\ evs = [].
 Proof.
-  intros c h order s0 s' r evs Hm H. unfold history_run in H. rewrite manual_crashes in H; auto.
-  unfold invoke in H. destruct (manual_plan true true c order s0 Hm) as [E|E]; rewrite E in H; [discriminate|].
+  intros c h order sched s0 s' r evs Hm H. unfold history_run in H. rewrite manual_crashes in H; auto.
+  unfold invoke in H. destruct (manual_plan true true c order sched s0 Hm) as [E|E]; rewrite E in H; [discriminate|].
   inv H. auto.
 Qed.
 
 (* ---- a completed copy ---- *)
-Lemma done_plan : forall fa fw c order s, src_exists c = true ->
+Lemma done_plan : forall fa fw c order sched s, src_exists c = true ->
     lookup s (dst c) <> None -> lookup s (smark c) <> None -> lookup s (emark c) <> None ->
-    plan_gen fa fw c order s = OSkip nothing_done.
+    plan_gen fa fw c order sched s = OSkip nothing_done.
 Proof.
-  intros fa fw c order s Hs H1 H2 H3. unfold plan_gen. rewrite Hs. simpl.
+  intros fa fw c order sched s Hs H1 H2 H3. unfold plan_gen. rewrite Hs. simpl.
   destruct (lookup s (dst c)); [|congruence]. destruct (lookup s (smark c)); [|congruence].
   destruct (lookup s (emark c)); [|congruence]. reflexivity.
 Qed.
 
 Lemma done_never_redone : forall c s, src_exists c = true ->
     lookup s (dst c) <> None -> lookup s (smark c) <> None -> lookup s (emark c) <> None ->
-    (forall order, invoke true true c order s = Some (s, nothing_done, [])) /\
+    (forall order sched, invoke true true c order sched s = Some (s, nothing_done, [])) /\
     (forall h, after_crashes true true c h s = s).
 Proof.
   intros c s Hs H1 H2 H3. split.
-  - intros order. unfold invoke. rewrite done_plan; auto.
+  - intros order sched. unfold invoke. rewrite done_plan; auto.
   - assert (Hc : forall a, invoke_crashed true true c s a = s).
     { intros a. unfold invoke_crashed. rewrite done_plan; auto. }
     induction h as [|a h IH]; simpl; auto. rewrite Hc. exact IH.
@@ -1053,34 +1271,34 @@ Lemma complete_marks : forall c s, complete_copy c s ->
     lookup s (dst c) <> None /\ lookup s (smark c) <> None /\ lookup s (emark c) <> None.
 Proof. intros c s (H1 & (a & H2) & (b & H3) & _). repeat split; congruence. Qed.
 
-Lemma invoke_src_exists : forall fa fw c order s x, invoke fa fw c order s = Some x -> src_exists c = true.
+Lemma invoke_src_exists : forall fa fw c order sched s x, invoke fa fw c order sched s = Some x -> src_exists c = true.
 Proof.
-  intros fa fw c order s x H. unfold invoke, plan_gen in H. destruct (src_exists c); auto. simpl in H. discriminate.
+  intros fa fw c order sched s x H. unfold invoke, plan_gen in H. destruct (src_exists c); auto. simpl in H. discriminate.
 Qed.
 
 (* ---- the theorems ---- *)
-Lemma complete_call_yields_copy_l : forall c order s s' r evs, src_ok c = true -> auto_state c s ->
+Lemma complete_call_yields_copy_l : forall c order sched s s' r evs, src_ok c = true -> auto_state c s ->
     order_in_dst c order -> order_covers c s order ->
-    invoke true true c order s = Some (s', r, evs) ->
+    invoke true true c order sched s = Some (s', r, evs) ->
     complete_copy c s' /\
     (was_copied r = true -> lookup s' (smark c) = Some (File start_text) /\ lookup s' (emark c) = Some (File end_text)).
 Proof.
-  intros c order s s' r evs Hok Ha Ho Hc H.
-  destruct (invoke_spec _ _ _ _ _ _ Hok Ha Ho Hc H) as [(A & B & C & D & _)|(A & _ & -> & -> & _)].
+  intros c order sched s s' r evs Hok Ha Ho Hc H.
+  destruct (invoke_spec _ _ _ _ _ _ _ Hok Ha Ho Hc H) as [(A & B & C & D & _)|(A & _ & -> & -> & _)].
   - auto.
   - split; auto. simpl. discriminate.
 Qed.
 
-Lemma result_truthful_l : forall c order s s' r evs, src_ok c = true -> auto_state c s ->
+Lemma result_truthful_l : forall c order sched s s' r evs, src_ok c = true -> auto_state c s ->
     order_in_dst c order -> order_covers c s order ->
-    invoke true true c order s = Some (s', r, evs) ->
+    invoke true true c order sched s = Some (s', r, evs) ->
     (was_copied r = true /\ source_format r = Some (format_of c) /\ evs <> [] /\
      complete_copy c s' /\ lookup s (emark c) = None /\
      (was_deleted r = true <-> lookup s (dst c) <> None))
     \/ (r = nothing_done /\ evs = [] /\ s' = s /\ complete_copy c s).
 Proof.
-  intros c order s s' r evs Hok Ha Ho Hc H.
-  destruct (invoke_spec _ _ _ _ _ _ Hok Ha Ho Hc H) as [(A & B & C & D & E & F & G)|(A & _ & -> & -> & ->)].
+  intros c order sched s s' r evs Hok Ha Ho Hc H.
+  destruct (invoke_spec _ _ _ _ _ _ _ Hok Ha Ho Hc H) as [(A & B & C & D & E & F & G)|(A & _ & -> & -> & ->)].
   - left. destruct G as [[G ->]|[G ->]]; simpl.
     + split; [reflexivity|]. split; [reflexivity|]. split; [exact E|]. split; [exact A|]. split; [exact F|].
       split; [intros X; discriminate X|intros X; congruence].
@@ -1089,26 +1307,26 @@ Proof.
   - right. auto.
 Qed.
 
-Lemma crash_safe_l : forall c h order s0 s' r evs, src_ok c = true -> (fresh c s0 \/ manual c s0) ->
+Lemma crash_safe_l : forall c h order sched s0 s' r evs, src_ok c = true -> (fresh c s0 \/ manual c s0) ->
     attempts_ok c h s0 -> order_in_dst c order -> order_covers c (after_crashes true true c h s0) order ->
-    history_run true true c h order s0 = Some (s', r, evs) ->
+    history_run true true c h order sched s0 = Some (s', r, evs) ->
     (fresh c s0 /\ complete_copy c s') \/ (manual c s0 /\ s' = s0).
 Proof.
-  intros c h order s0 s' r evs Hok [Hf|Hm] Hh Ho Hc H.
+  intros c h order sched s0 s' r evs Hok [Hf|Hm] Hh Ho Hc H.
   - left. split; auto. unfold history_run in H.
     eapply complete_call_yields_copy_l in H; eauto; [tauto|].
     apply auto_state_history; auto. apply fresh_auto; auto.
   - right. split; auto. eapply manual_untouched in H; eauto. tauto.
 Qed.
 
-Lemma completed_copy_never_redone_l : forall c h order s0 s' r evs, src_ok c = true -> fresh c s0 ->
+Lemma completed_copy_never_redone_l : forall c h order sched s0 s' r evs, src_ok c = true -> fresh c s0 ->
     attempts_ok c h s0 -> order_in_dst c order -> order_covers c (after_crashes true true c h s0) order ->
-    history_run true true c h order s0 = Some (s', r, evs) ->
-    forall h2 order2, history_run true true c h2 order2 s' = Some (s', nothing_done, []).
+    history_run true true c h order sched s0 = Some (s', r, evs) ->
+    forall h2 order2 sched2, history_run true true c h2 order2 sched2 s' = Some (s', nothing_done, []).
 Proof.
-  intros c h order s0 s' r evs Hok Hf Hh Ho Hc H h2 order2.
-  pose proof (invoke_src_exists _ _ _ _ _ _ H) as Hs.
-  destruct (crash_safe_l _ _ _ _ _ _ _ Hok (or_introl Hf) Hh Ho Hc H) as [[_ Hcc]|[[Hm _] _]].
+  intros c h order sched s0 s' r evs Hok Hf Hh Ho Hc H h2 order2 sched2.
+  pose proof (invoke_src_exists _ _ _ _ _ _ _ H) as Hs.
+  destruct (crash_safe_l _ _ _ _ _ _ _ _ Hok (or_introl Hf) Hh Ho Hc H) as [[_ Hcc]|[[Hm _] _]].
   - destruct (complete_marks _ _ Hcc) as (M1 & M2 & M3).
     destruct (done_never_redone c s' Hs M1 M2 M3) as [D1 D2].
     unfold history_run. rewrite D2. apply D1.
@@ -1121,21 +1339,21 @@ Qed.
 Open Scope string_scope.
 Definition w_cfg : config :=
   {| c_variant := VFolder; c_parent := ["l"]; c_name := "data";
-     c_dir := Some [("a.txt", TFile [65%Z]); ("z.txt", TFile [90%Z])]; c_zips := []; c_zip := None |}.
+     c_dir := Some [("a.txt", TFile [65%Z]); ("z.txt", TFile [90%Z])]; c_zips := []; c_zip := None; c_workers := 0 |}.
 Definition w_s0 : fs := [([], Dir)].
 Definition w_dst : path := ["l"; "data"].
 
 (* window (i): killed right after dst_path.mkdir(parents=True), before the start marker is written *)
-Definition w1_history : list attempt := [{| a_order := []; a_kill := 2 |}].
+Definition w1_history : list attempt := [{| a_order := []; a_sched := []; a_kill := 2; a_torn := None |}].
 (* window (ii): first attempt killed while copying (a.txt is there, z.txt not yet); the second attempt finds the
    incomplete copy, its rmtree scan lists the start marker first, and it is killed after that one unlink *)
 Definition w2_history : list attempt :=
-  [{| a_order := []; a_kill := 6 |};
-   {| a_order := [(w_dst ++ [sname])%list; (w_dst ++ ["a.txt"])%list]; a_kill := 1 |}].
+  [{| a_order := []; a_sched := []; a_kill := 6; a_torn := None |};
+   {| a_order := [(w_dst ++ [sname])%list; (w_dst ++ ["a.txt"])%list]; a_sched := []; a_kill := 1; a_torn := None |}].
 (* the same second window when only the first repair is in place (the folder is created atomically) *)
 Definition w2_history_atomic : list attempt :=
-  [{| a_order := []; a_kill := 9 |};
-   {| a_order := [(w_dst ++ [sname])%list; (w_dst ++ ["a.txt"])%list]; a_kill := 1 |}].
+  [{| a_order := []; a_sched := []; a_kill := 9; a_torn := None |};
+   {| a_order := [(w_dst ++ [sname])%list; (w_dst ++ ["a.txt"])%list]; a_sched := []; a_kill := 1; a_torn := None |}].
 Close Scope string_scope.
 
 (* the listings of the witnesses are honest *)
@@ -1168,7 +1386,7 @@ Ltac covers_by_keys :=
 
 Lemma w1_refutes : exists s' r evs,
     honest false false w_cfg w1_history w_s0 /\
-    history_run false false w_cfg w1_history [] w_s0 = Some (s', r, evs) /\
+    history_run false false w_cfg w1_history [] [] w_s0 = Some (s', r, evs) /\
     r = nothing_done /\ ~ complete_copy w_cfg s'.
 Proof.
   eexists. eexists. eexists. split; [|split; [vm_compute; reflexivity|split; [reflexivity|]]].
@@ -1180,7 +1398,7 @@ Lemma w2_refutes_gen : forall fa h, (fa = false /\ h = w2_history) \/ (fa = true
     exists s' r evs,
     honest fa false w_cfg h w_s0 /\
     order_covers w_cfg (after_crashes fa false w_cfg h w_s0) [w_dst ++ ["a.txt"%string]] /\
-    history_run fa false w_cfg h [w_dst ++ ["a.txt"%string]] w_s0 = Some (s', r, evs) /\
+    history_run fa false w_cfg h [w_dst ++ ["a.txt"%string]] [] w_s0 = Some (s', r, evs) /\
     r = nothing_done /\ ~ complete_copy w_cfg s'.
 Proof.
   intros fa h [[-> ->]|[-> ->]].
@@ -1199,7 +1417,7 @@ Qed.
 (* with only the second repair (the wipe keeps the marker) window (i) is still open *)
 Lemma w1_refutes_wipe_fix_only : exists s' r evs,
     honest false true w_cfg w1_history w_s0 /\
-    history_run false true w_cfg w1_history [] w_s0 = Some (s', r, evs) /\
+    history_run false true w_cfg w1_history [] [] w_s0 = Some (s', r, evs) /\
     r = nothing_done /\ ~ complete_copy w_cfg s'.
 Proof.
   eexists. eexists. eexists. split; [|split; [vm_compute; reflexivity|split; [reflexivity|]]].
@@ -1210,7 +1428,7 @@ Qed.
 (* ... and the same histories are harmless for the repaired code *)
 Lemma w_repaired_ok : forall h, h = w1_history \/ h = w2_history_atomic ->
     exists s' r evs, history_run true true w_cfg h
-                                 [w_dst ++ [sname]] w_s0 = Some (s', r, evs)
+                                 [w_dst ++ [sname]] [] w_s0 = Some (s', r, evs)
                      /\ complete_copyb w_cfg s' = true /\ was_copied r = true.
 Proof.
   intros h [->| ->]; eexists; eexists; eexists; (split; [vm_compute; reflexivity|split; vm_compute; reflexivity]).
@@ -1266,17 +1484,17 @@ Qed.
 (* 8. the premises of the theorems are satisfiable                         *)
 (* ====================================================================== *)
 Definition nv_history : list attempt :=
-  [{| a_order := []; a_kill := 9 |};
-   {| a_order := [w_dst ++ [sname]; w_dst ++ ["a.txt"%string]]; a_kill := 0 |};
-   {| a_order := [w_dst ++ ["a.txt"%string]; w_dst ++ [sname]]; a_kill := 3 |}].
+  [{| a_order := []; a_sched := []; a_kill := 9; a_torn := None |};
+   {| a_order := [w_dst ++ [sname]; w_dst ++ ["a.txt"%string]]; a_sched := []; a_kill := 0; a_torn := None |};
+   {| a_order := [w_dst ++ ["a.txt"%string]; w_dst ++ [sname]]; a_sched := []; a_kill := 3; a_torn := None |}].
 Definition nv_order : list path := [w_dst ++ [sname]].
 
 Lemma nv_premises : src_ok w_cfg = true /\ fresh w_cfg w_s0 /\ attempts_ok w_cfg nv_history w_s0 /\
     order_in_dst w_cfg nv_order /\ order_covers w_cfg (after_crashes true true w_cfg nv_history w_s0) nv_order /\
-    exists s' evs, history_run true true w_cfg nv_history nv_order w_s0 = Some (s', res_wipe w_cfg, evs).
+    exists s' evs, history_run true true w_cfg nv_history nv_order [] w_s0 = Some (s', res_wipe w_cfg, evs).
 Proof.
   split; [apply w_src_ok|]. split; [apply w_fresh|]. split; [|split; [repeat constructor|split]].
-  - simpl. split; [constructor|]. split; [covers_by_keys|].
+  - apply honest_attempts_ok. simpl. split; [constructor|]. split; [covers_by_keys|].
     split; [repeat constructor|]. split; [covers_by_keys|].
     split; [repeat constructor|]. split; [covers_by_keys|exact I].
   - covers_by_keys.
@@ -1287,7 +1505,7 @@ Definition nv_manual_s0 : fs :=
   [([], Dir); (["l"%string], Dir); (w_dst, Dir); (w_dst ++ ["mine.txt"%string], File [1%Z])].
 
 Lemma nv_manual : manual w_cfg nv_manual_s0 /\
-    history_run true true w_cfg nv_history nv_order nv_manual_s0 = Some (nv_manual_s0, nothing_done, []).
+    history_run true true w_cfg nv_history nv_order [] nv_manual_s0 = Some (nv_manual_s0, nothing_done, []).
 Proof. split; [split; [vm_compute; discriminate|reflexivity]|vm_compute; reflexivity]. Qed.
 
 (* ====================================================================== *)
@@ -1328,6 +1546,9 @@ Proof.
   - eapply keeps_trans.
     + eapply benign_keeps; eauto. apply Hb. left; auto.
     + apply IHreach. intros o' Hi. apply Hb. right; auto.
+  - eapply benign_keeps; eauto. apply tear_inv in H. destruct H as (p & k & -> & ->).
+    assert (Hx : benign c (Write p k)) by (apply Hb; left; auto).
+    destruct Hx as [Hr [Hx|[Hx|(a & Hx)]]]; [split; auto|split; auto|discriminate Hx].
 Qed.
 
 Lemma mid_safe_benign : forall c o, mid_safe c o -> benign c o.
@@ -1350,10 +1571,10 @@ Proof.
   destruct H as [<-|[<-|[]]]; (split; [reflexivity|]); left; exists [ename]; reflexivity.
 Qed.
 
-Lemma common_benign : forall c o, src_ok c = true -> In o (common_ops c) -> benign c o.
+Lemma common_benign : forall c sched o, src_ok c = true -> In o (common_ops c sched) -> benign c o.
 Proof.
-  intros c o Hok H. rewrite common_split in H. apply in_app_iff in H. destruct H as [H|H].
-  - apply mid_safe_benign. apply pre2_safe; auto.
+  intros c sched o Hok H. rewrite common_split in H. apply in_app_iff in H. destruct H as [H|H].
+  - apply mid_safe_benign. eapply pre2_safe; eauto.
   - apply last2_benign; auto.
 Qed.
 
@@ -1373,31 +1594,31 @@ Proof.
       eapply pre_safe_pres; eauto. apply create_pre_safe; auto. }
     eapply keeps_trans.
     + eapply benign_list_keeps; [apply pre1_benign|]. eapply run_reach; eauto.
-    + apply reach_one in H2. destruct H2 as [->|(e & Hr)]; [apply keeps_refl|]. eapply rename_keeps; eauto.
+    + apply reach_one in H2; [|reflexivity]. destruct H2 as [->|(e & Hr)]; [apply keeps_refl|]. eapply rename_keeps; eauto.
 Qed.
 
-Lemma plan_keeps : forall c order s s' ops r, src_ok c = true -> auto_state c s -> order_in_dst c order ->
-    plan c order s = ORun ops r -> reach ops s s' -> keeps c s s'.
+Lemma plan_keeps : forall c order sched s s' ops r, src_ok c = true -> auto_state c s -> order_in_dst c order ->
+    plan c order sched s = ORun ops r -> reach ops s s' -> keeps c s s'.
 Proof.
-  intros c order s s' ops r Hok Ha Ho Hp H.
-  destruct (plan_cases c order s Ha) as [(_ & E)|[(_ & Hd & Hp0 & E)|[(_ & Hk & E)|(_ & _ & _ & E)]]];
+  intros c order sched s s' ops r Hok Ha Ho Hp H.
+  destruct (plan_cases c order sched s Ha) as [(_ & E)|[(_ & Hd & Hp0 & E)|[(_ & Hk & E)|(_ & _ & _ & E)]]];
     rewrite E in Hp; try discriminate; inv Hp.
   - apply reach_app in H. destruct H as [H|(s1 & e1 & H1 & H)].
     + apply create_keeps; auto.
     + eapply keeps_trans.
       * apply create_keeps; auto. eapply run_reach; eauto.
-      * eapply benign_list_keeps; [|exact H]. intros o Hi. apply common_benign; auto.
+      * eapply benign_list_keeps; [|exact H]. intros o Hi. eapply common_benign; eauto.
   - eapply benign_list_keeps; [|exact H]. intros o Hi. apply in_app_iff in Hi. destruct Hi as [Hi|Hi].
     + apply mid_safe_benign. eapply wipe_safe; eauto.
-    + apply common_benign; auto.
+    + eapply common_benign; eauto.
 Qed.
 
 Lemma crashed_keeps : forall c s a, src_ok c = true -> auto_state c s -> order_in_dst c (a_order a) ->
     keeps c s (invoke_crashed true true c s a).
 Proof.
-  intros c s a Hok Ha Ho. unfold invoke_crashed. fold (plan c (a_order a) s).
-  destruct (plan c (a_order a) s) as [|r|ops r] eqn:E; try apply keeps_refl.
-  eapply plan_keeps; eauto. apply crash_reach.
+  intros c s a Hok Ha Ho. unfold invoke_crashed. fold (plan c (a_order a) (a_sched a) s).
+  destruct (plan c (a_order a) (a_sched a) s) as [|r|ops r] eqn:E; try apply keeps_refl.
+  eapply plan_keeps; eauto. apply crash_t_reach.
 Qed.
 
 Lemma history_keeps : forall c h s, src_ok c = true -> auto_state c s -> attempts_ok c h s ->
@@ -1410,18 +1631,112 @@ Proof.
     + apply IH; auto. apply crashed_pres; auto.
 Qed.
 
-Lemma other_files_untouched_l : forall c h order s0 s' r evs, src_ok c = true -> auto_state c s0 ->
+Lemma other_files_untouched_l : forall c h order sched s0 s' r evs, src_ok c = true -> auto_state c s0 ->
     attempts_ok c h s0 -> order_in_dst c order ->
-    history_run true true c h order s0 = Some (s', r, evs) ->
+    history_run true true c h order sched s0 = Some (s', r, evs) ->
     forall x, under (dst c) x = false -> under (tmp c) x = false -> lookup s0 x <> None -> lookup s' x = lookup s0 x.
 Proof.
-  intros c h order s0 s' r evs Hok Ha Hh Ho H x Hd Ht Hl.
+  intros c h order sched s0 s' r evs Hok Ha Hh Ho H x Hd Ht Hl.
   assert (K : keeps c s0 s').
   { eapply keeps_trans; [apply history_keeps; eauto|].
-    unfold history_run, invoke in H. fold (plan c order (after_crashes true true c h s0)) in H.
-    destruct (plan c order (after_crashes true true c h s0)) as [|r0|ops r0] eqn:E; try discriminate.
+    unfold history_run, invoke in H. fold (plan c order sched (after_crashes true true c h s0)) in H.
+    destruct (plan c order sched (after_crashes true true c h s0)) as [|r0|ops r0] eqn:E; try discriminate.
     - inv H. apply keeps_refl.
     - destruct (run ops (after_crashes true true c h s0)) as [[s2 e2]|] eqn:Er; [|discriminate]. inv H.
       eapply plan_keeps; eauto; [apply auto_state_history; auto|eapply run_reach; eauto]. }
   apply K; auto. split; auto.
+Qed.
+
+(* ====================================================================== *)
+(* 10. killed while the end marker is being written                        *)
+(* ====================================================================== *)
+(* wherever a call is killed: if the end marker exists afterwards (even empty: killed between open(.., "w") and
+   the write), the copy is complete *)
+Lemma end_marker_after_kill_l : forall c s a, src_ok c = true -> auto_state c s ->
+    order_in_dst c (a_order a) -> (seals c s a -> order_covers c s (a_order a)) ->
+    lookup (invoke_crashed true true c s a) (emark c) <> None ->
+    complete_copy c (invoke_crashed true true c s a).
+Proof.
+  intros c s a Hok Ha Ho Hc He. pose proof (crashed_pres c s a Hok Ha Ho Hc) as [_ H].
+  destruct (lookup (invoke_crashed true true c s a) (dst c)) as [e|].
+  - destruct H as (_ & _ & H). auto.
+  - exfalso. apply He. unfold emark. apply H.
+Qed.
+
+(* ====================================================================== *)
+(* 11. two copiers at once (outside the property: what the model says)     *)
+(* ====================================================================== *)
+(* A creates the folder and has copied a.txt when B starts; B finds an incomplete automatic copy and deletes
+   a.txt; A carries on, writes the end marker and returns: a.txt is missing (until B has copied it again) *)
+Definition cc_orderB : list path := [w_dst ++ [sname]; w_dst ++ ["a.txt"%string]].
+
+Lemma concurrent_copiers_l : exists opsA rA opsB rB s1 e1 s2 e2 s3 e3,
+    plan w_cfg [] [] w_s0 = ORun opsA rA /\
+    run (firstn 10 opsA) w_s0 = Some (s1, e1) /\
+    order_in_dst w_cfg cc_orderB /\ order_covers w_cfg s1 cc_orderB /\
+    plan w_cfg cc_orderB [] s1 = ORun opsB rB /\
+    run (firstn 1 opsB) s1 = Some (s2, e2) /\
+    run (skipn 10 opsA) s2 = Some (s3, e3) /\
+    was_copied rA = true /\ lookup s3 (emark w_cfg) = Some (File end_text) /\ ~ complete_copy w_cfg s3.
+Proof.
+  do 10 eexists.
+  split; [vm_compute; reflexivity|]. split; [vm_compute; reflexivity|].
+  split; [repeat constructor|]. split; [covers_by_keys|].
+  split; [vm_compute; reflexivity|]. split; [vm_compute; reflexivity|]. split; [vm_compute; reflexivity|].
+  split; [reflexivity|]. split; [vm_compute; reflexivity|].
+  intros (_ & _ & _ & H). specialize (H ["a.txt"%string]).
+  vm_compute in H. assert (Y : @None entry = Some (File [65%Z])) by (apply H; discriminate). discriminate Y.
+Qed.
+
+(* ====================================================================== *)
+(* 12. restatements used by Property.v; a parallel witness                 *)
+(* ====================================================================== *)
+Lemma wipe_killed_early_l : forall c order sched s k t,
+    src_ok c = true ->
+    lookup s (dst c) = Some Dir -> (exists a, lookup s (smark c) = Some (File a)) -> lookup s (emark c) = None ->
+    tmp_small c s -> order_in_dst c order ->
+    k <= List.length (wipe_ops true c order ++ common_ops c sched) - 2 ->
+    let s' := crash_state_t (wipe_ops true c order ++ common_ops c sched) k t s in
+    lookup s' (dst c) = Some Dir /\ (exists a, lookup s' (smark c) = Some (File a)) /\ lookup s' (emark c) = None.
+Proof.
+  intros c order sched s k t Hok H1 H2 H3 H4 Ho Hk.
+  destruct (wipe_killed_early c order sched s k t Hok (conj H1 (conj H2 (conj H3 H4))) Ho Hk) as (A & B & C & _).
+  exact (conj A (conj B C)).
+Qed.
+
+Open Scope string_scope.
+(* three archives, two workers, image-folder variant (class-wise) *)
+Definition par_cfg : config :=
+  {| c_variant := VImage; c_parent := ["l"]; c_name := "ds";
+     c_dir := Some [("n1.zip", TFile []); ("n0.zip", TFile []); ("README", TFile [82%Z]); ("n2.zip", TFile [])];
+     c_zips := [("n0.zip", [{| m_path := ["a.txt"]; m_file := Some [65%Z] |}; {| m_path := ["sub"; "b"]; m_file := Some [] |}]);
+                ("n1.zip", [{| m_path := ["c.txt"]; m_file := Some [67%Z] |}]);
+                ("n2.zip", [{| m_path := ["d"]; m_file := None |}; {| m_path := ["d"; "e"]; m_file := Some [69%Z; 69%Z] |}])];
+     c_zip := None; c_workers := 2 |}.
+Close Scope string_scope.
+Definition par_sched : list nat := [2; 1; 1; 0; 2; 7; 1].
+
+Lemma par_witness :
+    src_ok par_cfg = true /\ fresh par_cfg w_s0 /\
+    unzip_jobs (c_workers par_cfg) (zip_items [("n1.zip", TFile []); ("n0.zip", TFile []); ("README", TFile [82%Z]); ("n2.zip", TFile [])]%string)
+      = [["n1.zip"]; ["n0.zip"]; ["n2.zip"]]%string /\
+    copy_entries par_cfg par_sched <> src_entries par_cfg /\
+    exists s' evs, invoke true true par_cfg [] par_sched w_s0 = Some (s', res_create par_cfg, evs)
+                   /\ complete_copyb par_cfg s' = true.
+Proof.
+  split; [vm_compute; reflexivity|]. split; [split; intros r; reflexivity|]. split; [vm_compute; reflexivity|].
+  split; [vm_compute; discriminate|]. eexists. eexists. split; vm_compute; reflexivity.
+Qed.
+
+(* killed inside the write of the end marker after 5 bytes: the copy counts as (and is) complete *)
+Definition torn_history : list attempt := [{| a_order := []; a_sched := []; a_kill := 13; a_torn := Some 5 |}].
+Lemma torn_end_marker_witness :
+    attempts_ok w_cfg torn_history w_s0 /\
+    lookup (after_crashes true true w_cfg torn_history w_s0) (emark w_cfg) = Some (File (firstn 5 end_text)) /\
+    complete_copyb w_cfg (after_crashes true true w_cfg torn_history w_s0) = true /\
+    history_run true true w_cfg torn_history [] [] w_s0
+      = Some (after_crashes true true w_cfg torn_history w_s0, nothing_done, []).
+Proof.
+  split; [|split; [vm_compute; reflexivity|split; vm_compute; reflexivity]].
+  apply honest_attempts_ok. simpl. split; [constructor|]. split; [covers_by_keys|exact I].
 Qed.
